@@ -151,10 +151,12 @@ pub fn c07(ctx: &Ctx) -> Report {
         s.set_remote = vec![1, 2, 3];
         s.set_local = vec![0];
         s.configs = vec![1];
-        runs.push(SliceRun { slice: s, depth: ctx.tier.pick(9, 12) });
+        s.cancel = true;
+        s.cancel_rtx = true;
+        runs.push(SliceRun { slice: s, depth: ctx.tier.pick(8, 11) });
     }
     let req = ["response delivered", "forged or unauthenticated response dropped, state unchanged (self-loop)", "genuine SHA-1 response delivered to an authenticated request", "genuine SHA-256 response delivered to an authenticated request", "genuine SHA-1+SHA-256 response delivered to an authenticated request", "timed out"];
-    run_slices(ctx, runs, &req, "all histories up to the depth over {send with no / SHA-1 / SHA-256 / both integrity, responses unsigned / SHA-1 under R1, R2, local key / SHA-256 under R1, R2 / both / one HMAC bit flipped x success, error x two sources, set remote credentials R1/R2/long-term at any point (unset, set, changed mid-transaction), set local credentials, poll now/wake/wake+1, configure (7ms,3,0)}, <= 2 live; delivery judged by the reference HMAC; drain from every state; plus single-transaction schedules of an authenticated request to completion with a forged / unsigned / corrupted / local-key / genuine response at every step index x 2 poll patterns x 6 base configurations (all in thorough)", Some(crate::agent::schedule::forgery_sweep(ctx)))
+    run_slices(ctx, runs, &req, "all histories up to the depth over {send with no / SHA-1 / SHA-256 / both integrity, responses unsigned / SHA-1 under R1, R2, local key / SHA-256 under R1, R2 / both / one HMAC bit flipped x success, error x two sources, set remote credentials R1/R2/long-term at any point (unset, set, changed mid-transaction), set local credentials, poll now/wake/wake+1, configure (7ms,3,0), cancel, cancel_retransmissions}, <= 2 live; delivery judged by the reference HMAC; drain from every state; plus single-transaction schedules of an authenticated request to completion with a forged / unsigned / corrupted / local-key / genuine response at every step index x 2 poll patterns x 6 base configurations (all in thorough)", Some(crate::agent::schedule::forgery_sweep(ctx)))
 }
 
 pub fn c15(ctx: &Ctx) -> Report {
